@@ -510,25 +510,36 @@ class Extractor:
         return toks, body_hi
 
     # ---- R13: `for &x in e { .. }` -> `for x_r in e { let x = *x_r; .. }`
-    def normalise_ref_patterns(self, toks):
+    def normalise_ref_patterns(self, toks, general=True):
         """Verus' `for` accepts only an identifier pattern.  `for &x in e {B}` binds x to a copy of the referenced element
-        (the pattern requires Copy), which is exactly `for x_r in e { let x = *x_r; B }`."""
-        changed = True
+        (the pattern requires Copy), which is exactly `for x_r in e { let x = *x_r; B }`; in general `for PAT in e {B}` with an
+        irrefutable pattern is `for t in e { let PAT = t; B }` (and `for &PAT in e` is `for t in e { let PAT = *t; B }`)."""
+        changed = True; n = 0
         while changed:
             changed = False
             for lp in find_loops(toks, 0, len(toks)):
                 if lp.kw != 'for': continue
                 a = rsx._skip_trivia(toks, lp.kw_idx + 1, lp.body_open)
-                if not (toks[a].kind == 'punct' and toks[a].text == '&'): continue
-                b = rsx._skip_trivia(toks, a + 1, lp.body_open)
-                c = rsx._skip_trivia(toks, b + 1, lp.body_open)
-                if not (toks[b].kind == 'ident' and toks[b].text != 'mut' and toks[c].kind == 'ident' and toks[c].text == 'in'):
-                    continue
-                x = toks[b].text
-                text = (rsx.text_of(toks, 0, a) + x + '_r' + rsx.text_of(toks, b + 1, lp.body_open + 1)
-                        + ' let %s = *%s_r;' % (x, x) + rsx.text_of(toks, lp.body_open + 1, len(toks)))
+                # the `in` keyword at bracket depth 0 ends the pattern
+                d = 0; in_idx = None
+                for j in range(a, lp.body_open):
+                    t = toks[j]
+                    if t.kind == 'punct' and t.text in rsx.OPEN: d += 1
+                    elif t.kind == 'punct' and t.text in rsx.CLOSE: d -= 1
+                    elif t.kind == 'ident' and t.text == 'in' and d == 0: in_idx = j; break
+                if in_idx is None: continue
+                pat = [t for t in toks[a:in_idx] if t.kind not in ('ws', 'comment')]
+                if len(pat) == 1 and pat[0].kind == 'ident': continue                       # plain identifier: nothing to do
+                if len(pat) == 2 and pat[0].text == 'mut' and pat[1].kind == 'ident': continue
+                deref = pat[0].kind == 'punct' and pat[0].text == '&'
+                if not general and not (deref and len(pat) == 2 and pat[1].kind == 'ident'): continue   # loops under a loop spec keep their pattern (R4 desugars it)
+                ptext = rsx.text_of(toks, a + (1 if deref else 0), in_idx).strip()
+                if deref and len(pat) == 2 and pat[1].kind == 'ident': tmp = pat[1].text + '_r'      # historic name of the simple case
+                else: tmp = 'r13_%d' % n
+                text = (rsx.text_of(toks, 0, a) + tmp + ' ' + rsx.text_of(toks, in_idx, lp.body_open + 1)
+                        + ' let %s = %s%s;' % (ptext, '*' if deref else '', tmp) + rsx.text_of(toks, lp.body_open + 1, len(toks)))
                 toks = tokenize(text)
-                self.rule('R13')
+                self.rule('R13'); n += 1
                 changed = True
                 break
         return toks
@@ -850,7 +861,7 @@ class Extractor:
         ftoks = self.normalise_destructuring_assign(ftoks)
         if getattr(self, 'inline_plan', None) and name not in self.inline_plan:
             ftoks = self.inline_helpers(ftoks, self.inline_plan, self_name=name)
-        ftoks = self.normalise_ref_patterns(ftoks)
+        ftoks = self.normalise_ref_patterns(ftoks, general=not (fnspec or {}).get('loop'))
         for rw in (fnspec or {}).get('rewrite', []):
             ftoks = self.apply_rewrite(ftoks, rw, path)
         for fd in sorted((fnspec or {}).get('find', []), key=lambda x: -x['n']):
@@ -1173,6 +1184,9 @@ class Extractor:
         for v in lits:
             if v in self._abi_consts:
                 disj.append('(s == "%s" && x == crate::abi::%s as %s)' % (v, v, pty))
+        if not disj:
+            # e.g. the match was turned into a table lookup: the names are no longer in this function's text
+            raise ExtractError('%s: to_str generator found no constant-name literal in the body (lost anchor)' % fpath)
         sfn = 'names_' + it.name
         spec = ('pub open spec fn %s(s: &str, x: %s) -> bool {\n    %s\n}\n'
                 % (sfn, pty, '\n    '.join('||| ' + d for d in disj) if disj else 'false'))
@@ -1240,18 +1254,27 @@ class Extractor:
             seen_fn[fpath] = seen_fn.get(fpath, 0) + 1
             if seen_fn[fpath] > 1:
                 raise ExtractError('%s: fn path %s is ambiguous' % (mod, fpath))
-            fs = fnspecs.get(fpath)
+            fs = fnspecs.get(fpath); lost_auto = None
             if fs is not None: self.used_fn_specs.add((mod, fpath))
             if fs is None:
                 for rule in ms.get('auto_fn', []):
                     if re.fullmatch(rule['match'], fpath):
-                        fs = self.auto_fn_spec(rule, toks, it, mod, fpath)
+                        try:
+                            fs = self.auto_fn_spec(rule, toks, it, mod, fpath)
+                        except ExtractError as e:
+                            # the generated clause cannot be stated for this text (e.g. a table-driven to_str): the body is still
+                            # verified for safety / termination; only the generated clause is lost (undecided for its property)
+                            fs = None; lost_auto = (rule, str(e))
                         break
             if fs is None and it.name in self.inline_plan and self.inline_plan[it.name]['path'] == fpath:
                 # R14: every call site of this new private helper is beta-reduced, so the helper itself is never called in the
                 # verified text; its body is verified at (and with the context of) each call site
                 fs = {'path': fpath, 'external_body': True}
             text, rec = self.process_fn(toks, it, mod, container, fs, in_trait_impl)
+            if lost_auto is not None:
+                lab = 'C19.%s.name_is_constant_with_that_value' % it.name
+                self.register_clause(Clause(lab, ['C19'], [], 'r is Some ==> the name is an exported constant with that value (clause could not be generated)'), fpath, 'generated clause (lost)', mod)
+                rec.lost_sites.append(lab)
             rec.src_file = 'src/%s.rs' % mod
             rec.src_line = item_src_line(it)
             return text, rec
